@@ -187,3 +187,38 @@ def disagree(ctx, name: str, case, model, impl, per_name: int = 3):
         ctx.disagree(name, case, model, impl)
     else:
         ctx.count("disagreements")
+
+
+def leancheck(ctx, prop: str):
+    """thorough tier: independent kernel re-check of the property's module with `lake env leanchecker`"""
+    import subprocess
+
+    if not ctx.thorough or ctx.proof is None or not ctx.proof.ok:
+        return
+    with common.lake_lock():
+        try:
+            p = subprocess.run(["lake", "env", "leanchecker", f"Midgard.Props.{prop}"], cwd=common.LEAN,
+                               capture_output=True, text=True, timeout=900)
+        except (subprocess.TimeoutExpired, FileNotFoundError) as e:
+            ctx.extra["leanchecker"] = f"not run: {type(e).__name__}"
+            return
+    ctx.extra["leanchecker"] = "ok" if p.returncode == 0 else ("failed: " + (p.stdout + p.stderr)[-400:])
+    if p.returncode != 0:
+        ctx.proof.ok = False
+        ctx.proof.failed.append("leanchecker rejected Midgard.Props." + prop)
+
+
+def run_corpus(ctx, prop: str, handler):
+    """corpus/<prop>/*.json: minimised past disagreements, run first; handler(case) re-runs one"""
+    import json
+
+    d = common.VERIF / "corpus" / prop
+    if not d.is_dir():
+        return
+    for f in sorted(d.glob("*.json")):
+        try:
+            case = json.loads(f.read_text())
+        except Exception:
+            continue
+        ctx.count("corpus")
+        handler(case)
